@@ -10,7 +10,21 @@ use xml_schema_generator::{extend_struct, into_struct, Options, SortBy};
 
 const TEMPLATES: usize = 6;
 
+const MAX_DEPTH: usize = 200;
+/// as `COUNTER_CASES` in the harness (props/c07.rs): `<r>` with n children `<a/>`
+const COUNTER_CASES: &[usize] = &[255, 256, 257, 65_535, 65_536, 65_537, 70_000];
+
 fn depth_case(idx: u64) -> Vec<u8> {
+    if idx as usize >= MAX_DEPTH * TEMPLATES {
+        let n = COUNTER_CASES[(idx as usize - MAX_DEPTH * TEMPLATES) % COUNTER_CASES.len()];
+        let mut s = String::with_capacity(n * 4 + 8);
+        s.push_str("<r>");
+        for _ in 0..n {
+            s.push_str("<a/>");
+        }
+        s.push_str("</r>");
+        return s.into_bytes();
+    }
     let depth = (idx as usize / TEMPLATES) + 1;
     let t = idx as usize % TEMPLATES;
     let mut s = String::new();
@@ -83,7 +97,12 @@ fn main() {
         let _ = writeln!(out, "AT {}", i);
         let _ = out.flush();
         for p in exercise(depth_case(i)) {
-            found.push(format!("{{\"class\":\"panic/depth-unoptimised\",\"summary\":\"depth case {} (depth {}, template {}) in the unoptimised build: {}\",\"replay\":{{\"part\":\"depth-unoptimised\",\"index\":{}}},\"rank\":{}}}", i, i as usize / TEMPLATES + 1, i as usize % TEMPLATES, p, i, i));
+            let what = if i as usize >= MAX_DEPTH * TEMPLATES {
+                format!("{} occurrences of one child", COUNTER_CASES[(i as usize - MAX_DEPTH * TEMPLATES) % COUNTER_CASES.len()])
+            } else {
+                format!("depth {}, template {}", i as usize / TEMPLATES + 1, i as usize % TEMPLATES)
+            };
+            found.push(format!("{{\"class\":\"panic/depth-unoptimised\",\"summary\":\"depth case {} ({}) in the unoptimised build: {}\",\"replay\":{{\"part\":\"depth-unoptimised\",\"index\":{}}},\"rank\":{}}}", i, what, p, i, i));
         }
     }
     let _ = writeln!(out, "DONE {{\"inputs\":{},\"calls\":{},\"nontrivial\":{},\"executions\":0,\"found\":[{}]}}", end - start, end - start, end - start, found.join(","));
